@@ -190,6 +190,14 @@ Definition order_classes : list site_entry := [
           "normalized_fields.sort_by(|a, b| a.key.as_str().cmp(b.key.as_str()));"
           "6206624355" NotSymbolOrder
           "record fields sorted by the NAME STRING of the key (key.as_str()), not by the Symbol";
+  mkClass "compiler/mirgen.rs" "Context::build_decision_tree"
+          "transformed_rows.sort_by_key(|row| row.arm_index);"
+          "1e557e472e" NotSymbolOrder
+          "rows of the pattern matrix sorted by the INDEX of their arm in the source (usize; stable sort), so that the first matching arm is taken (fix M1), not by a Symbol";
+  mkClass "compiler/typing.rs" "InferContext::bind_pattern"
+          "res.sort_by(|a, b| a.key.as_str().cmp(b.key.as_str()));"
+          "3684bd6b15" NotSymbolOrder
+          "the fields of a record PATTERN's type sorted by the NAME STRING of the key (key.as_str()), like record literals (fix S1), not by the Symbol";
   mkClass "compiler/parser/lower.rs" "Lowerer::lower_record_fields"
           "fields.sort_by(|a, b| a.name.as_ref().cmp(b.name.as_ref()));"
           "ed5e470fcd" NotSymbolOrder
